@@ -1,7 +1,8 @@
 (* C10 — rules are first-match and a query reaches only the selected upstream.
    Only statements; proofs in Router/RouterProofs.v. *)
 From Mos Require Import Base.Prelude Codec.Name Codec.Msg Codec.WfProofs Codec.RoundtripProofs
-  Router.Rules Router.Edns Router.Router Router.RouterSpec Router.RouterProofs.
+  Router.Rules Router.Edns Router.Router Router.RouterSpec Router.RouterProofs
+  Router.StartOrder Router.StartOrderProofs.
 
 (* The selected rule is the FIRST rule in configured order whose condition holds. *)
 Theorem C10_first_match : forall matches (rules : list rule) (name : list N) (i : nat) (r : rule),
@@ -74,4 +75,39 @@ Example C10_example :
   let rules := [mkRule (Some (0, false)) 3 None; mkRule (Some (0, true)) 0 (Some 1); mkRule None 0 (Some 0)] in
   decide (fun _ _ => false) rules [1; 97]%N = AForward 1 /\ decide (fun _ _ => true) rules [1; 97]%N = AReject 3 /\
   load (mkRawConfig [([117]%N, [49]%N)] [[115]%N] [mkRawRule false [115]%N 0 [120]%N]) = inl LUnknownUpstream.
+Proof. vm_compute. auto. Qed.
+
+(* Start-up order.  The listener goroutines read r.rules and the domain-set matchers without synchronising with run():
+   a query sees whatever has been initialised when it arrives.  run() loads the domain sets, builds the rules and only
+   then starts the servers ([so_run_prog]); a query may arrive after ANY prefix of it ([firstn j]).  Whatever the prefix:
+   either nobody is listening yet (the query is lost, the client retries), or the decision is exactly the one of the
+   completely configured router - the rule decision of C10_first_match / C10_decision over the complete rule list and
+   the completely loaded sets.  (Tie: kind startrace - clients already sending while run() loads slow domain sets.) *)
+Theorem C10_startup_order : forall matches nsets (rules : list rule) nservers j (name : list N),
+  so_rules_ok nsets rules = true ->
+  let s := so_exec (firstn j (so_run_prog nsets rules nservers)) in
+  so_decide matches s name = None \/ so_decide matches s name = Some (decide matches rules name).
+Proof. exact so_run_order_safe. Qed.
+Print Assumptions C10_startup_order.
+
+(* the order matters: with the servers started first (the seeded change C10-K) there is a configuration, a moment and
+   a query that is answered REFUSED although the configured rules forward it *)
+Theorem C10_servers_first_refuted :
+  exists matches nsets rules nservers j name,
+    so_rules_ok nsets rules = true /\
+    so_decide matches (so_exec (firstn j (so_servers_first_prog nsets rules nservers))) name = Some ARefused /\
+    decide matches rules name = AForward 0.
+Proof.
+  exists (fun _ _ => false), 0, [mkRule None 0 (Some 0)], 1, 2, [1; 97]%N. vm_compute. auto.
+Qed.
+Print Assumptions C10_servers_first_refuted.
+
+(* non-vacuity: two sets, three rules, two servers: after the whole of run() the listener answers with the complete
+   decision; in the middle of it nobody listens *)
+Example C10_startup_example :
+  let rules := [mkRule (Some (1, false)) 3 None; mkRule None 0 (Some 0)] in
+  let m := fun i (_ : list N) => Nat.eqb i 1 in
+  so_rules_ok 2 rules = true /\
+  so_decide m (so_exec (so_run_prog 2 rules 2)) [1; 97]%N = Some (AReject 3) /\
+  so_decide m (so_exec (firstn 4 (so_run_prog 2 rules 2))) [1; 97]%N = None.
 Proof. vm_compute. auto. Qed.
